@@ -41,6 +41,10 @@ type progFile struct {
 	mdatStart uint64
 	mdatHdr   int
 	mdatSize  uint64
+	// optional extras (variants() below): a free box with a 16-byte (largesize) header between ftyp and the rest,
+	// and an empty mdat box at the very end of the file
+	largeFree    bool
+	trailingMdat bool
 }
 
 func runLengths32(v []uint32) (counts, vals []uint32) {
@@ -231,11 +235,15 @@ func (pf *progFile) build(r *rand.Rand) {
 		hdr = 16
 	}
 	pf.mdatHdr = hdr
+	var extra []byte // free box with a largesize header: size field 1, then the 64-bit size
+	if pf.largeFree {
+		extra = []byte{0, 0, 0, 1, 'f', 'r', 'e', 'e', 0, 0, 0, 0, 0, 0, 0, 21, 1, 2, 3, 4, 5}
+	}
 	var payloadStart uint64
 	if pf.mdatFirst {
-		payloadStart = ftyp.Size() + uint64(hdr)
+		payloadStart = ftyp.Size() + uint64(len(extra)) + uint64(hdr)
 	} else {
-		payloadStart = ftyp.Size() + moov.Size() + uint64(hdr)
+		payloadStart = ftyp.Size() + uint64(len(extra)) + moov.Size() + uint64(hdr)
 	}
 	// interleave chunks
 	var payload []byte
@@ -277,6 +285,7 @@ func (pf *progFile) build(r *rand.Rand) {
 	mdat.SetData(payload)
 	var buf bytes.Buffer
 	must(ftyp.Encode(&buf))
+	buf.Write(extra)
 	if pf.mdatFirst {
 		pf.mdatStart = uint64(buf.Len())
 		must(mdat.Encode(&buf))
@@ -287,6 +296,9 @@ func (pf *progFile) build(r *rand.Rand) {
 		must(mdat.Encode(&buf))
 	}
 	pf.mdatSize = uint64(hdr + len(payload))
+	if pf.trailingMdat {
+		buf.Write([]byte{0, 0, 0, 8, 'm', 'd', 'a', 't'})
+	}
 	pf.bytes = buf.Bytes()
 	if pf.mdatStart+uint64(hdr) != payloadStart {
 		panic(fmt.Sprintf("layout mismatch %d %d", pf.mdatStart+uint64(hdr), payloadStart))
@@ -297,4 +309,23 @@ func must(err error) {
 	if err != nil {
 		panic(err)
 	}
+}
+
+// variants returns the file itself plus layout variants of the same tracks: with a largesize-header free box before
+// the media, with an empty mdat box at the end, and both (chunk offsets are recomputed).
+func (pf *progFile) variants(r *rand.Rand) []*progFile {
+	out := []*progFile{pf}
+	for _, v := range [][2]bool{{true, false}, {false, true}, {true, true}} {
+		q := *pf
+		q.tracks = nil
+		for _, t := range pf.tracks {
+			tc := *t
+			tc.chunkOffs = nil
+			q.tracks = append(q.tracks, &tc)
+		}
+		q.largeFree, q.trailingMdat = v[0], v[1]
+		q.build(rand.New(rand.NewSource(r.Int63())))
+		out = append(out, &q)
+	}
+	return out
 }
